@@ -120,6 +120,8 @@ def binop(E, op, a, b):
     if ka and kb:
         return num_binop(E, op, a, b, ka, kb)
     # ---- non numeric
+    if op == "%" and E.is_strlike(a):
+        return str_percent(E, a, b)
     if a is None or b is None:
         raise PyExc("TypeError", "unsupported operand type(s) for %s: NoneType" % op)
     if isinstance(a, Opaque) or isinstance(b, Opaque):
@@ -355,6 +357,8 @@ def _fmt_float(v, spec):
 
 def format_one(E, v, conv, flags="", width=None, prec=None):
     """%-style / format-style conversion of a single value -> string value"""
+    if conv in ("s", "r") and isinstance(v, SIte):
+        return b_str(E, [v], {})
     v = E.force(v)
     if conv in ("s", "r"):
         s = b_str(E, [v], {})
@@ -428,7 +432,8 @@ def _bit_true(c):
 def str_percent(E, fmt, args):
     if not isinstance(fmt, str):
         raise Unsupported("symbolic format string")
-    args = E.force(args)
+    if not isinstance(args, SIte):
+        args = E.force(args)
     if isinstance(args, tuple):
         arglist = list(args)
     else:
@@ -539,6 +544,10 @@ def format_spec(E, v, spec):
 def b_str(E, args, kw):
     if not args:
         return ""
+    if isinstance(args[0], SIte):
+        # text of a value that differs between merged paths (e.g. "None or a number" handed to
+        # print): an opaque string - no fork; comparing it with anything is outside the subset
+        return SStr([StrOfInt(Opaque("str_of_merged_value", (args[0].c,)))])
     v = E.force(args[0])
     if isinstance(v, (str, SBin, SHex, SStr, SChr)):
         return v
@@ -893,8 +902,7 @@ def b_iter(E, args, kw):
 
 
 def b_print(E, args, kw):
-    for a in args:
-        E.force(a)
+    # output is dropped; "%s" formatting of the arguments cannot raise for the value kinds modelled here
     return None
 
 
